@@ -132,6 +132,9 @@ class Harness(object):
                 buf += c
         except socket.timeout:
             pass
+        except OSError as e:
+            # the server reset the connection while we were reading (it closed with input still unread): an observation, not a harness failure
+            self.err.append('recv: %s' % type(e).__name__)
         self.t.join(2.0)
         alive = self.t.is_alive()
         self.a.close()
@@ -150,6 +153,8 @@ class Harness(object):
                 frames, rest = wire.split_frames(buf)
         except socket.timeout:
             pass
+        except OSError as e:
+            self.err.append('recv: %s' % type(e).__name__)
         return frames
 
 
@@ -371,4 +376,6 @@ def client_side(tier, rng, viol, distinct):
 
 def contracts(repo):
     from . import source_common as SC
-    return SC.peeking_specs() + SC.chaining_specs() + SC.remembering_specs()
+    from . import C01 as _C01
+    # a frame is 24 bytes plus its declared length: what the library itself sends declares exactly the length of its payload (contract of C01)
+    return SC.peeking_specs() + SC.chaining_specs() + SC.remembering_specs() + [_C01.enip_encode_spec()]
